@@ -4,7 +4,12 @@
 import glob, json, os, re
 HERE = os.path.dirname(os.path.dirname(os.path.abspath(__file__)))
 res = {}
-for f in sorted(glob.glob(os.path.join(HERE, "seeded", "MATRIX*.txt"))):
+def _order(f):
+    m = re.search(r"MATRIX(\d*)", os.path.basename(f))
+    return (0 if "BENIGN" in f else 1, int(m.group(1) or 0))
+
+
+for f in sorted(glob.glob(os.path.join(HERE, "seeded", "MATRIX*.txt")), key=_order):
     for line in open(f):
         m = re.match(r"^([mrb]\d+\w*) (C\d+) rc=(\d+)", line)
         if m:
